@@ -766,9 +766,10 @@ func (m *Machine) refusal(t *rapid.T) {
 		}
 		m.logf("REFUSAL undecodable payload on %s: %x", subject, payload)
 		m.drainUp()
-		reply, err := fix.WriteRaw(m.In.NC, subject, payload)
-		if err != nil || reply == "" {
-			t.Fatalf("undecodable payload on %s: reply %q err %v", subject, reply, err)
+		// the statement does not say how an undecodable payload is answered, only
+		// that the instance answers and that nothing changes
+		if _, err := fix.WriteRaw(m.In.NC, subject, payload); err != nil {
+			t.Fatalf("undecodable payload on %s: no reply: %v", subject, err)
 		}
 		if msgs := m.drainUp(); len(msgs) > 0 {
 			t.Fatalf("undecodable payload rebroadcast on %s", msgs[0].Subject)
